@@ -107,6 +107,8 @@ impl From<&Hsla> for Hwba {
 }
 
 // Find which of three numbers are largest and smallest
+#[cfg_attr(kani, kani::requires(kani_verif::mml_pre(a, b, c)))]
+#[cfg_attr(kani, kani::ensures(|r| kani_verif::mml_post(a, b, c, r)))]
 fn max_min_largest(a: f64, b: f64, c: f64) -> (f64, f64, u32) {
     let (max, largest) = if a > b && a > c {
         (a, 0)
@@ -118,3 +120,7 @@ fn max_min_largest(a: f64, b: f64, c: f64) -> (f64, f64, u32) {
     let min = a.min(b).min(c);
     (max, min, largest)
 }
+
+#[cfg(kani)]
+#[path = "/verif/kani/convert.rs"]
+mod kani_verif;
